@@ -134,9 +134,18 @@ impl<const N: usize> Serialize for Df88591String<N> {
     where
         S: sd::Serializer,
     {
-        let value: ArrayString<N> = self.chars().collect();
-
-        serializer.serialize_str(&value)
+        // Characters above 0x7F need two bytes in UTF-8, so an N-byte buffer would cut the
+        // string short; stream the characters instead.
+        struct Chars<'a, const M: usize>(&'a Df88591String<M>);
+        impl<'a, const M: usize> core::fmt::Display for Chars<'a, M> {
+            fn fmt(&self, f: &mut core::fmt::Formatter<'_>) -> core::fmt::Result {
+                for c in self.0.chars() {
+                    f.write_char(c)?;
+                }
+                Ok(())
+            }
+        }
+        serializer.collect_str(&Chars(self))
     }
 }
 #[cfg(feature = "serde")]
